@@ -774,6 +774,21 @@ class Interp:
             return args[0]
         if isinstance(fn, ast.Name) and fn.id == 'len' and len(args) == 1 and (h.is_list(args[0]) or isinstance(args[0], (list, tuple))):
             return len(h.items(args[0])) if h.is_list(args[0]) else len(args[0])
+        if isinstance(fn, ast.Attribute) and fn.attr in ('copy', 'update', 'clear') and len(args) <= 1:
+            b_ = self.ev(fn.value, env, cls)
+            if isinstance(b_, Ref) and h.objs[b_.name]['__class__'] == 'dict':
+                if fn.attr == 'copy':
+                    d_ = h.new_dict()
+                    h.objs[d_.name]['entries'] = list(h.objs[b_.name]['entries'])     # shallow: the same value objects
+                    return d_
+                if fn.attr == 'clear':
+                    h.touch(b_.name)
+                    h.objs[b_.name]['entries'] = []
+                    return None
+                if args and isinstance(args[0], Ref) and h.objs[args[0].name]['__class__'] == 'dict':
+                    for k_, v_ in list(h.objs[args[0].name]['entries']):
+                        h.dict_set(b_, k_, v_)
+                    return None
         if isinstance(fn, ast.Attribute) and fn.attr in ('items', 'keys', 'values') and not args:
             b_ = self.ev(fn.value, env, cls)
             if isinstance(b_, Ref) and h.objs[b_.name]['__class__'] == 'dict':
